@@ -23,6 +23,8 @@ INTS = {"i1": ["12", "-7", "+3", "0"], "i2": ["5", "1000000", "-0", "42"]}
 FLOATS = {"f1": ["5.4", "-0.25", ".5", "3.", "1.5e3", "2.E-2"], "f2": ["0.125", "-1.25E+2", "+.75", "10.0", "6.02e23", "9.5"]}
 QSTRS = {"s1": ["Hello", "a b  c", "it's", 'say "hi"', "caf\u00e9 \u00fc\u4e2d", ""],
          "s2": ["x,y=(1)[2]:#z", "C:\\temp\\new.csv", "tab\there", "two\nlines", "\\", "ends with backslash-quote \\\""],
+         # written over two lines: a raw line break between the quotes (the token itself advances the line)
+         "sm": ["first line\nsecond line", "a,\n b", "x\n", "(\n)", "# no comment\nk: v", "\n"],
          "s3": ["/Other/Path/9.txt", " lead and trail ", "100%", "\u00b5g/L", "a\\\\b", "'q'"]}
 BARES = {"w1": ["Foo", "/Path/To/123.txt", "x_1.y_2", "A+/-B", "file.txt", "3d", "False positives removed"],
          "w2": ["LowToHigh", "/a b/c d.csv", "_x", "a.b.c", "data/in.csv", "123abc", "Not True"],
@@ -77,6 +79,8 @@ class Lexemes(object):
         if kind == "BARE":
             return self.bare(payload)
         if kind == "QSTR":
+            if payload[0] == "sm":
+                return quote(self.qstr(payload[0]), payload[1]).replace("\\n", "\n")
             return quote(self.qstr(payload[0]), payload[1])
         return {"EQ": "=", "LP": "(", "RP": ")", "LB": "[", "RB": "]", "COMMA": ",", "COLON": ":"}[kind]
 
